@@ -29,9 +29,10 @@ def selftest():
 
 def _entry(e):
     t, b = gc.dec(e["t"]), gc.dec(e["b"])
-    if e.get("large") is None:
-        return (t, b), False
-    return (t, b, e["large"]), e["large"]
+    ent = (t, b) if e.get("large") is None else (t, b, e["large"])
+    if e.get("as_list"):
+        ent = list(ent)  # e.g. a palette loaded from JSON: entries are lists, not tuples
+    return ent, bool(e.get("large"))
 
 
 def _same(a, b):
@@ -48,7 +49,10 @@ def judge(case):
         entries.append(ent)
         larges.append(lg)
     try:
-        out = make_readable_bulk(list(entries), mode=mode, very_readable=very)
+        if case.get("positional"):
+            out = make_readable_bulk(list(entries), mode, very)  # the documented parameter order: (pairs, mode, very_readable, save_report)
+        else:
+            out = make_readable_bulk(list(entries), mode=mode, very_readable=very)
     except Exception as e:
         raise Violation(exc_bucket(e), f"make_readable_bulk raised {e!r} on {entries!r}")
     if not isinstance(out, list) or len(out) != len(entries):
@@ -126,7 +130,10 @@ def entry(draw):
     else:
         targ, _, _ = draw(gc.spell(text))
     barg, _, _ = draw(gc.spell(bg, allow_translucent=False))
-    return {"t": targ, "b": barg, "large": large}
+    e = {"t": targ, "b": barg, "large": large}
+    if draw(st.integers(0, 5)) == 0:
+        e["as_list"] = True
+    return e
 
 
 @st.composite
@@ -136,6 +143,8 @@ def strategy(draw):
     idx = draw(st.lists(st.integers(0, len(pool) - 1), min_size=n, max_size=n))
     entries = [pool[i] for i in idx]
     case = {"entries": entries, "mode": draw(st.sampled_from([0, 1, 1, 2])), "very": draw(st.booleans())}
+    if draw(st.integers(0, 3)) == 0:
+        case["positional"] = True
     if n:
         case["probe"] = draw(st.lists(st.integers(0, n - 1), max_size=2, unique=True))
         if draw(st.booleans()):
